@@ -94,3 +94,69 @@ for _n, (_u1, _u2) in enumerate((('it_IT.UTF-8', 'it_IT.UTF-8'), ('http://www.w3
                                  ('http://www.w3.org/2013/collation/UCA?lang=C', 'http://www.w3.org/2013/collation/UCA?lang=C'))):
     define(_SRC_I.format(n=_n, k1='compare', u1=_u1, k2='contains', u2=_u2,
                          bound='history [compare with %s; contains with %s] with the process LC_COLLATE initially one of 5 locales (chosen by the solver) under every installed-locale configuration: lock free and LC_COLLATE restored' % (_u1, _u2)), globals())
+
+
+# --- added after round-3 seeded changes: the decimal context and the shared Unicode tables are process-global state too ------------------
+
+import decimal as _decimal  # noqa: E402
+T_FMT = parse_all({'fmt': 'format-number($d, $p)', 'div': 'xs:decimal(1) div 3', 'round': 'round($d, 2)', 'sum': 'sum(($d, $d, 0.1))', 'str': 'string($d * $d)'})
+BIG = ('1234567890123456789012345678.567', '0.5', '-99999999999999999999999999999999.995', '1e0', '123456789012345678901234567890123456789')
+PICS = ('#.0', '#,##0.00', '0.###', '#')
+
+
+@ob(budget=200, bound='format-number / round / sum / string on 5 decimals of up to 39 digits x 4 pictures (indices chosen by the solver): the decimal '
+                      'context of the process (precision, rounding, traps) is the same afterwards and 1 div 3 gives the same digits',
+    funcs=['elementpath/xpath30/_xpath30_functions.py:evaluate__format_number', 'decimal.getcontext'])
+def decimal_context_unchanged(di: int, pi: int) -> bool:
+    """
+    pre: 0 <= di <= 4 and 0 <= pi <= 3
+    post: _
+    """
+    from decimal import Decimal
+    d = Decimal(BIG[[k for k in range(5) if k == di][0]])
+    p = PICS[[k for k in range(4) if k == pi][0]]
+    c = _decimal.getcontext()
+    before = (c.prec, c.rounding, c.Emin, c.Emax, c.capitals, c.clamp, dict(c.traps))
+    third = ev(T_FMT['div'])
+    for key in ('fmt', 'round', 'sum', 'str'):
+        try:
+            ev(T_FMT[key], d=d, p=p)
+        except ElementPathError:
+            pass
+    c = _decimal.getcontext()
+    return (c.prec, c.rounding, c.Emin, c.Emax, c.capitals, c.clamp, dict(c.traps)) == before and ev(T_FMT['div']) == third
+
+
+T_RX = parse_all({'m': 'matches($s, $p)', 'tok': 'tokenize($s, $p)'})
+RX_POLLUTERS = ('^[\\D-[x]]$', '^[\\W-[_]]$', '^[\\P{L}-[_]]$', '^[\\S-[a]]$', '^[\\I-[1]]$', '^[\\C-[ ]]$', '^[\\P{Nd}-[x]]+$')
+RX_PROBES = (('x', '^\\D$', True), ('x', '^\\p{Nd}$', False), ('a', '^\\S$', True),
+             ('x', '^\\P{Nd}$', True), ('5', '^\\d$', True), ('_', '^\\P{L}$', True), ('_', '^\\p{L}$', False))
+
+
+def _regex_history():
+    """performed concretely, once, at import and BEFORE the condition below runs (the tracer trips over translate_pattern's nested
+    closures on these patterns: 'ValueError: Cell is empty'): evaluations that build a class from a negated escape and subtract"""
+    out = []
+    for pol in RX_POLLUTERS:
+        for subj in ('a', 'x'):
+            try:
+                out.append(ev(T_RX['m'], s=subj, p=pol))
+                out.append(ev(T_RX['tok'], s='1' + subj + '2', p=pol.strip('^$+')))
+            except ElementPathError as e:
+                out.append(err_code(e))
+    return out
+
+
+_RX_HIST = _regex_history()
+
+
+@ob(budget=200, bound='after a concrete history of 28 evaluations of 7 patterns whose bracket expression starts with a negated escape and subtracts a '
+                      'character: 7 independent matches on the same escapes (index chosen by the solver) answer as on a fresh process',
+    funcs=['elementpath/regex/character_classes.py:CharacterClass.add/__isub__', 'elementpath/regex/unicode_subsets.py (shared category subsets)'])
+def regex_history_leaves_tables_alone(i: int) -> bool:
+    """
+    pre: 0 <= i <= 6
+    post: _
+    """
+    subj, pat, want = RX_PROBES[[k for k in range(7) if k == i][0]]
+    return ev(T_RX['m'], s=subj, p=pat) == [want] and len(_RX_HIST) == 28
